@@ -125,7 +125,11 @@ func Check(spec *PropertySpec, tier string, out *os.File) int {
 		}
 		ruleArchs := []string{"amd64"}
 		if tier == "thorough" {
-			ruleArchs = append(ruleArchs, r.ThoroughArchs...)
+			if r.ThoroughArchs == nil {
+				ruleArchs = append(ruleArchs, "arm64", "386")
+			} else {
+				ruleArchs = append(ruleArchs, r.ThoroughArchs...)
+			}
 		}
 		for _, arch := range ruleArchs {
 			res, err := runRule(r, arch)
